@@ -35,6 +35,24 @@ Theorem C05_race_possible :
 Proof. exact race_possible. Qed.
 Print Assumptions C05_race_possible.
 
+Theorem C05_deadlock_possible :
+  exists s,
+    reachable (init [[Acq "a" W; Acq "b" W; Rel "b" W; Rel "a" W];
+                     [Acq "b" W; Acq "a" W; Rel "a" W; Rel "b" W]]) s /\
+    deadlocked s.
+Proof. exact deadlock_possible. Qed.
+Print Assumptions C05_deadlock_possible.
+
+(** A read lock re-acquired by its holder deadlocks against a writer that
+    arrives in between (the nested serverLock.RLock finding). *)
+Theorem C05_reentrant_read_deadlock_possible :
+  exists s,
+    reachable (init [[Acq "l" R; Acq "l" R; Rel "l" R; Rel "l" R];
+                     [Acq "l" W; Rel "l" W]]) s /\
+    deadlocked s.
+Proof. exact reentrant_read_deadlock_possible. Qed.
+Print Assumptions C05_reentrant_read_deadlock_possible.
+
 (** Instance, on the table extracted from the current source: every access
     site outside the known findings holds the guards of its field; the
     acquired-while-held pairs outside the known findings admit a strictly
